@@ -114,7 +114,10 @@ def rule_table(ctx, repo, lg):
             continue
         want = lg.reference(ht, on, oo)
         bad = compare(lg, S, result, want)
-        if bad:
+        if bad and _opaque(result):
+            # a value the interpreter could not reduce: what it is was not decided, so neither is the row
+            g['und'].append((ht, bad))
+        elif bad:
             g['bad'].append((ht, bad))
     site = lg.fi.site
     for key in sorted(groups):
@@ -128,6 +131,18 @@ def rule_table(ctx, repo, lg):
             r.ok(key, site, '%d rows agree' % g['n'])
     ctx.extra['decision_rows'] = nrows
     ctx.extra['exhaustive_domain'] = '256 hash-type bytes x 3 orderings inIdx/len(vin) x 3 orderings inIdx/len(vout)'
+
+
+def _opaque(v):
+    if isinstance(v, tuple):
+        if v and v[0] == 'expr':
+            return True
+        return any(_opaque(x) for x in v)
+    if isinstance(v, list):
+        return any(_opaque(x) for x in v)
+    if isinstance(v, dict):
+        return any(_opaque(x) for x in v.values())
+    return False
 
 
 def compare(lg, S, result, want):
